@@ -11,7 +11,8 @@ const = REG.const
 ufunc = REG.ufunc
 ghostvar = REG.ghostvar
 fold = REG.fold
+axiom = REG.axiom
 
 # names used inside @spec bodies: they are never executed by CPython at load
 # time (the source is interpreted symbolically), so they need no definition.
-__all__ = ['contract', 'invariant', 'cls', 'record', 'enum', 'spec', 'const', 'ufunc', 'ghostvar', 'fold']
+__all__ = ['contract', 'invariant', 'cls', 'record', 'enum', 'spec', 'const', 'ufunc', 'ghostvar', 'fold', 'axiom']
